@@ -1010,6 +1010,24 @@ func (g *gen) projection(keyword string, final bool) string {
 	for i := 0; i < n; i++ {
 		if useAgg && (i == n-1 || g.chance("aggitem", 1, 2)) {
 			items = append(items, g.aggItem())
+		} else if e, ok := g.entity(); useAgg && ok && g.chance("collidingkey", 1, 3) {
+			// a computed grouping key that takes the same value for different operand values
+			g.feat("agg-colliding-key")
+			var it item
+			switch g.pick("ckey", 4) {
+			case 0:
+				it = item{expr: e.Name + ".value * 0", typ: TInt}
+			case 1:
+				it = item{expr: e.Name + ".value > 1", typ: TBool}
+			case 2:
+				it = item{expr: "0 * " + e.Name + ".value", typ: TInt}
+			default:
+				it = item{expr: e.Name + ".value < 3", typ: TBool}
+			}
+			if g.chance("ckeyparen", 1, 3) {
+				it.expr = "(" + it.expr + ")"
+			}
+			items = append(items, it)
 		} else {
 			items = append(items, g.scalarItem())
 		}
@@ -1258,8 +1276,8 @@ func (g *gen) lim() string {
 }
 
 func (g *gen) loweringTemplate() string {
-	k := g.pick("tmpl", 25)
-	if k >= 23 {
+	k := g.pick("tmpl", 26)
+	if k >= 24 {
 		k = 5 // the aggregate traversal count shape has the narrowest eligibility of all: drawn three times as often
 	}
 	g.feat(fmt.Sprintf("template-%d", k))
@@ -1486,6 +1504,22 @@ func (g *gen) loweringTemplate() string {
 			where += " and " + rapid.SampledFrom([]string{"not ", ""}).Draw(g.t, "t22not") + "(s)-[:" + g.eks() + "]->(" + rapid.SampledFrom([]string{"", ":A", ":B"}).Draw(g.t, "t22ppk") + ")"
 		}
 		return "match p = " + lead + mid + tail + where + " return " + rapid.SampledFrom([]string{"p", "relationships(p)", "relationships(p)", "nodes(p)", "p, s", "relationships(p), nodes(p)", "size(relationships(p)), p"}).Draw(g.t, "t22ret")
+	case 23: // an OPTIONAL MATCH whose incoming rows carry a scalar next to the entity it extends from
+		opt := "optional match (n)-[r:" + g.eks() + "]->(m" + g.optKind("t23km") + ")"
+		if g.chance("t23where", 1, 3) {
+			opt += " where " + rapid.SampledFrom([]string{"m.value > 1", "r.flag = true", "m.name <> n.name"}).Draw(g.t, "t23w")
+		}
+		ret := rapid.SampledFrom([]string{"n, w, m", "w, m", "n.name, w, m.name", "w, count(m)", "n, w, r"}).Draw(g.t, "t23ret")
+		switch g.pick("t23", 4) {
+		case 0:
+			return "match (a)-[q:" + g.eks() + "]->(n" + g.optKind("t23kn") + ") with n, q." + rapid.SampledFrom([]string{"value", "name", "flag"}).Draw(g.t, "t23p") + " as w " + opt + " return " + ret
+		case 1:
+			return "match (a" + g.optKind("t23ka") + ")-[:" + g.eks() + "]->(n) with n, a." + rapid.SampledFrom([]string{"value", "name"}).Draw(g.t, "t23p2") + " as w " + opt + " return " + ret
+		case 2:
+			return "unwind [1, 2" + rapid.SampledFrom([]string{"", ", 2", ", 3"}).Draw(g.t, "t23u") + "] as w match (n" + g.optKind("t23kn") + ") " + opt + " return " + ret
+		default:
+			return "match (n" + g.optKind("t23kn") + ") unwind n.tags as w " + opt + " return " + ret
+		}
 	default: // path functions, late path materialisation
 		return "match p = (a" + g.optKind("t13k") + ")-[:" + g.eks() + g.rng() + "]->(b) where " + g.anchor("a") + " return " + rapid.SampledFrom([]string{"nodes(p)", "relationships(p)", "size(relationships(p))", "b, size(nodes(p))", "p, a.name"}).Draw(g.t, "t13f")
 	}
